@@ -318,3 +318,765 @@ Proof.
     { eapply ro_bind; [apply IH; assumption|]. intros us _. apply ro_ret. exact I. }
     destruct (R st1 (ext_len _ _ _ L E)) as [E2 _]. split; [exact (ext_trans _ _ _ _ E E2)|auto].
 Qed.
+
+(* ---- ParseTxs ---- *)
+
+Lemma ro_parse_txs_mem n0 g views : ro n0 (fun _ => True) (parse_txs_mem g views).
+Proof.
+  unfold parse_txs_mem. destruct views as [|v0 tl]; [apply ro_ret; exact I|].
+  eapply ro_bind; [apply ro_mmap with (P := fun _ => True); intros x; apply ro_mread|]. intros shs _.
+  destruct (negb _); [apply ro_err|].
+  eapply ro_bind; [apply ro_extract_raw_data_mem; apply safe_nil|]. intros raw S.
+  eapply ro_bind; [apply ro_parse_raw_data_mem; exact S|]. intros units _.
+  eapply ro_weaken; [apply ro_mmap with (P := fun _ => True); intros x; apply ro_mread|auto].
+Qed.
+
+(* ---- the statements: heap unchanged, writes only to fresh blocks ---- *)
+
+(* final heap restricted to the initial block ids = initial heap;
+   every W entry of the log targets a block allocated by the run *)
+Definition run_read_only {A} (m : M A) (h : heap) : Prop :=
+  firstn (length h) (st_heap (fst (m (mk_st h [])))) = h /\
+  Forall (fun a => a_kind a = AW -> length h <= a_blk a) (st_log (fst (m (mk_st h [])))).
+
+Theorem parse_blobs_mem_heap_unchanged : forall g h views, run_read_only (parse_blobs_mem g views) h.
+Proof. intros. exact (ro_run _ _ h (ro_parse_blobs_mem (length h) g views)). Qed.
+
+Theorem sequence_raw_data_mem_readonly : forall g h views, run_read_only (sequence_raw_data_mem g views) h.
+Proof. intros. exact (ro_run _ _ h (ro_sequence_raw_data_mem (length h) g views)). Qed.
+
+Theorem extract_raw_data_mem_readonly : forall g h views,
+  run_read_only (extract_raw_data_mem g false views nil_slice) h.
+Proof. intros. exact (ro_run _ _ h (ro_extract_raw_data_mem (length h) g views false nil_slice (safe_nil _))). Qed.
+
+Theorem parse_txs_mem_readonly : forall g h views, run_read_only (parse_txs_mem g views) h.
+Proof. intros. exact (ro_run _ _ h (ro_parse_txs_mem (length h) g views)). Qed.
+
+(* parseDelimiter appends zero padding to input[:l].  Whenever its input lives
+   in a block that did not exist in [h0] (as the buffer built by extractRawData
+   does), or has no capacity, the first [length h0] blocks are unchanged and the
+   write is logged against a block >= length h0; this holds from every state. *)
+Theorem parse_delimiter_mem_readonly : forall g n0 input st,
+  n0 <= length (st_heap st) -> safe n0 input -> Forall (wfresh n0) (st_log st) ->
+  firstn n0 (st_heap (fst (parse_delimiter_mem g input st))) = firstn n0 (st_heap st) /\
+  Forall (wfresh n0) (st_log (fst (parse_delimiter_mem g input st))).
+Proof.
+  intros g n0 input st L S W.
+  destruct (parse_delimiter_mem_ext n0 g input st L S) as [(E & _ & K) _]. auto.
+Qed.
+
+(* ================================================================== *)
+(* 2. Refinement: ParseBlobs on views computes the pure parse_blobs    *)
+(* ================================================================== *)
+
+(* a Go slice inside an allocated block *)
+Definition wf_slice (h : heap) (s : slice) : Prop :=
+  sl_blk s < length h /\ sl_len s <= sl_cap s /\
+  sl_off s + sl_cap s <= length (hblock h (sl_blk s)).
+
+(* a share view: 512 bytes inside a block of the heap, any capacity behind it *)
+Definition view_ok (h : heap) (v : slice) : Prop := wf_slice h v /\ sl_len v = 512.
+
+Lemma mem_skipn_skipn {A} : forall a b (l : list A), skipn a (skipn b l) = skipn (b + a) l.
+Proof.
+  intros a b. revert a. induction b as [|b IH]; intros a l.
+  - rewrite skipn_O. reflexivity.
+  - destruct l as [|x l].
+    + rewrite !skipn_nil. reflexivity.
+    + cbn [Nat.add]. change (skipn (S b) (x :: l)) with (skipn b l).
+      change (skipn (S (b + a)) (x :: l)) with (skipn (b + a) l). apply IH.
+Qed.
+
+Lemma length_mread h s : wf_slice h s -> length (mread_bytes h s) = sl_len s.
+Proof.
+  intros (_ & L & B). unfold mread_bytes. apply firstn_length_le. rewrite skipn_length. lia.
+Qed.
+
+Lemma length_mread_le h s : length (mread_bytes h s) <= sl_len s.
+Proof. unfold mread_bytes. apply firstn_le_length. Qed.
+
+Lemma nth_firstn_lt {A} (d : A) : forall n l i, i < n -> nth i (firstn n l) d = nth i l d.
+Proof.
+  induction n as [|n IH]; intros l i H; [lia|].
+  destruct l as [|x l]; [rewrite firstn_nil; reflexivity|].
+  rewrite firstn_cons_S. destruct i as [|i]; cbn [nth]; auto. apply IH. lia.
+Qed.
+
+Lemma hblock_firstn n0 h h' b : firstn n0 h' = firstn n0 h -> b < n0 -> hblock h' b = hblock h b.
+Proof.
+  intros E L. unfold hblock.
+  transitivity (nth b (firstn n0 h') (@nil byte)).
+  - symmetry. apply nth_firstn_lt. assumption.
+  - rewrite E. apply nth_firstn_lt. assumption.
+Qed.
+
+Lemma mread_same_block h h' s : hblock h' (sl_blk s) = hblock h (sl_blk s) -> mread_bytes h' s = mread_bytes h s.
+Proof. unfold mread_bytes. intros ->. reflexivity. Qed.
+
+Lemma wf_same_block h h' s :
+  length h <= length h' -> hblock h' (sl_blk s) = hblock h (sl_blk s) -> wf_slice h s -> wf_slice h' s.
+Proof. intros L E (A & B & C). unfold wf_slice. rewrite E. repeat split; auto. lia. Qed.
+
+Lemma hblock_app_old h x b : b < length h -> hblock (h ++ [x]) b = hblock h b.
+Proof. intros L. unfold hblock. apply app_nth1. assumption. Qed.
+
+Lemma hblock_app_new h x : hblock (h ++ [x]) (length h) = x.
+Proof. unfold hblock. apply nth_middle. Qed.
+
+Lemma nth_upd_nth_other {A} (f : A -> A) (d : A) : forall l b b', b' <> b -> nth b' (upd_nth b f l) d = nth b' l d.
+Proof.
+  induction l as [|x l IH]; intros b b' H.
+  - destruct b; reflexivity.
+  - destruct b as [|b], b' as [|b']; cbn [upd_nth nth]; auto; try lia.
+Qed.
+
+Lemma nth_upd_nth_same {A} (f : A -> A) (d : A) : forall l b, b < length l -> nth b (upd_nth b f l) d = f (nth b l d).
+Proof.
+  induction l as [|x l IH]; intros b H; cbn [length] in H; [lia|].
+  destruct b as [|b]; cbn [upd_nth nth]; auto. apply IH. lia.
+Qed.
+
+(* sub-slices denote sub-lists *)
+Lemma mread_mslice2 h s lo hi r :
+  mslice2 s lo hi = Ok r -> hi <= sl_len s ->
+  mread_bytes h r = firstn (hi - lo) (skipn lo (mread_bytes h s)).
+Proof.
+  unfold mslice2. destruct (_ && _) eqn:E; intros K; inversion K; subst; clear K. intros H.
+  apply andb_true_iff in E. destruct E as [E1 E2]. apply Nat.leb_le in E1.
+  unfold mread_bytes. cbn [sl_blk sl_off sl_len].
+  rewrite skipn_firstn_comm, firstn_firstn, mem_skipn_skipn.
+  rewrite Nat.min_l by lia. reflexivity.
+Qed.
+
+(* s[k:len(s)] denotes skipn k *)
+Lemma mread_mslice2_from h s k r :
+  mslice2 s k (sl_len s) = Ok r -> mread_bytes h r = skipn k (mread_bytes h s).
+Proof.
+  intros K. rewrite (mread_mslice2 h s k (sl_len s) r K (le_n _)).
+  apply firstn_all2. rewrite skipn_length. pose proof (length_mread_le h s). lia.
+Qed.
+
+Lemma mslice2_ok s lo hi : lo <= hi -> hi <= sl_cap s ->
+  mslice2 s lo hi = Ok (mk_slice (sl_blk s) (sl_off s + lo) (hi - lo) (sl_cap s - lo)).
+Proof.
+  intros A B. unfold mslice2.
+  rewrite (proj2 (Nat.leb_le lo hi) A), (proj2 (Nat.leb_le hi (sl_cap s)) B). reflexivity.
+Qed.
+
+(* what append does, for a destination that is nil-like or inside a block *)
+Lemma mappend_spec g dst src st :
+  (sl_cap dst = 0 /\ sl_len dst = 0 \/ wf_slice (st_heap st) dst) ->
+  mread_bytes (st_heap st) src <> [] ->
+  exists st' d, mappend g dst src st = (st', Ok d) /\
+    length (st_heap st) <= length (st_heap st') /\
+    (forall b, b < length (st_heap st) -> b <> sl_blk d -> hblock (st_heap st') b = hblock (st_heap st) b) /\
+    mread_bytes (st_heap st') d = mread_bytes (st_heap st) dst ++ mread_bytes (st_heap st) src /\
+    wf_slice (st_heap st') d /\
+    (sl_blk d = length (st_heap st) \/ (sl_blk d = sl_blk dst /\ 0 < sl_cap dst)).
+Proof.
+  intros HD NE. unfold mappend.
+  set (h := st_heap st) in *. set (data := mread_bytes h src) in *.
+  unfold mappend_lit. destruct data as [|d0 data'] eqn:ED; [congruence|].
+  rewrite <- ED. assert (LD : 1 <= length data) by (rewrite ED; cbn; lia). clearbody data.
+  cbn [st_heap log_read log_acc].
+  destruct (Nat.leb (sl_len dst + length data) (sl_cap dst)) eqn:E.
+  - (* in place *)
+    apply Nat.leb_le in E. destruct HD as [[C0 _]|(WB & WL & WC)]; [lia|].
+    eexists _, _. split; [reflexivity|]. cbn [st_heap log_acc sl_blk sl_off sl_len sl_cap].
+    fold h. set (B := hblock h (sl_blk dst)) in *.
+    assert (HB : hblock (hwrite h (sl_blk dst) (sl_off dst + sl_len dst) data) (sl_blk dst)
+                 = set_at (sl_off dst + sl_len dst) data B).
+    { unfold hblock, hwrite. apply nth_upd_nth_same. assumption. }
+    repeat split.
+    + unfold hwrite. rewrite length_upd_nth. lia.
+    + intros b _ Hb. unfold hblock, hwrite. apply nth_upd_nth_other. assumption.
+    + unfold mread_bytes at 1. cbn [sl_blk sl_off sl_len]. rewrite HB. unfold set_at.
+      rewrite skipn_app.
+      rewrite firstn_length_le by lia.
+      replace (sl_off dst - (sl_off dst + sl_len dst)) with 0 by lia. rewrite skipn_O.
+      rewrite <- firstn_skipn_comm. fold (mread_bytes h dst).
+      assert (LM : length (mread_bytes h dst) = sl_len dst) by (apply length_mread; repeat split; auto).
+      rewrite <- LM at 1. rewrite firstn_app_2. f_equal.
+      replace (length data) with (length data + 0) at 1 by lia.
+      rewrite firstn_app_2, firstn_O. apply app_nil_r.
+    + unfold hwrite. rewrite length_upd_nth. assumption.
+    + assumption.
+    + cbn. rewrite HB. unfold set_at. rewrite !app_length, firstn_length_le, skipn_length by lia. lia.
+    + right. split; [reflexivity|lia].
+  - (* grow *)
+    apply Nat.leb_gt in E.
+    eexists _, _. split; [reflexivity|]. cbn [st_heap log_acc sl_blk sl_off sl_len sl_cap]. fold h.
+    assert (LM : length (mread_bytes h dst) = sl_len dst).
+    { destruct HD as [[C0 L0]|W]; [|apply length_mread; assumption].
+      pose proof (length_mread_le h dst). lia. }
+    set (n := sl_len dst + length data) in *.
+    repeat split.
+    + rewrite app_length. lia.
+    + intros b Hb _. apply hblock_app_old. assumption.
+    + unfold mread_bytes at 1. cbn [sl_blk sl_off sl_len]. rewrite hblock_app_new, skipn_O.
+      rewrite app_assoc. replace n with (length (mread_bytes h dst ++ data) + 0)
+        by (rewrite app_length; lia).
+      rewrite firstn_app_2, firstn_O. apply app_nil_r.
+    + cbn. rewrite app_length. cbn. lia.
+    + cbn. unfold new_cap. lia.
+    + cbn. rewrite hblock_app_new, !app_length, length_zeros. unfold new_cap. lia.
+    + left. reflexivity.
+Qed.
+
+(* one iteration of the pure parser *)
+Definition pure_step (s : share) (seqs : list pseq) : outcome (list pseq) :=
+  if negb (sh_version_supported s) then Err else
+  if sh_is_padding s then Ok seqs else
+  if sh_start s then
+    Ok (mk_pseq (sh_ns s) (sh_version s) (sh_raw_data s) (sh_seq_len s) (sh_signer s) :: seqs)
+  else
+    match seqs with
+    | [] => Err
+    | q :: older =>
+      Ok (mk_pseq (q_ns q) (q_ver q) (q_data q ++ sh_raw_data s) (q_len q) (q_signer q) :: older)
+    end.
+
+Lemma parse_sparse_loop_cons s tl seqs :
+  parse_sparse_loop (s :: tl) seqs = bind (pure_step s seqs) (parse_sparse_loop tl).
+Proof.
+  cbn [parse_sparse_loop]. unfold pure_step.
+  destruct (negb (sh_version_supported s)); [reflexivity|].
+  destruct (sh_is_padding s); [reflexivity|].
+  destruct (sh_start s); [reflexivity|].
+  destruct seqs; reflexivity.
+Qed.
+
+(* a sequence of the memory-level parser represents a sequence of the pure one:
+   namespace and signer are views of pre-existing blocks (read in the initial heap),
+   the data is a private buffer (read in the current heap) *)
+Record seq_rel (n0 : nat) (h0 h : heap) (q : mseq) (p : pseq) : Prop := mk_seq_rel {
+  sr_ns_blk : sl_blk (m_ns q) < n0;
+  sr_ns : mread_bytes h0 (m_ns q) = q_ns p;
+  sr_ver : m_ver q = q_ver p;
+  sr_len : m_len q = q_len p;
+  sr_sg : match m_signer q, q_signer p with
+          | Some s, Some b => sl_blk s < n0 /\ mread_bytes h0 s = b
+          | None, None => True
+          | _, _ => False
+          end;
+  sr_wf : wf_slice h (m_data q);
+  sr_fresh : n0 <= sl_blk (m_data q);
+  sr_data : mread_bytes h (m_data q) = q_data p
+}.
+
+Definition dblk (q : mseq) : nat := sl_blk (m_data q).
+
+Lemma seq_rel_frame n0 h0 h h' q p :
+  length h <= length h' -> hblock h' (dblk q) = hblock h (dblk q) ->
+  seq_rel n0 h0 h q p -> seq_rel n0 h0 h' q p.
+Proof.
+  intros L E [A B C D F G H I]. constructor; auto.
+  - eapply wf_same_block; eassumption.
+  - rewrite <- I. apply mread_same_block. assumption.
+Qed.
+
+Lemma raw_data_start_le s : raw_data_start s <= 58.
+Proof.
+  unfold raw_data_start, addif.
+  destruct (sh_start s), (sh_is_compact s), (N.eqb (sh_version s) 1); cbn; lia.
+Qed.
+
+Lemma seqs_rel_safe n0 h0 h seqs pseqs : Forall2 (seq_rel n0 h0 h) seqs pseqs -> seqs_safe n0 seqs.
+Proof.
+  induction 1; constructor; auto. right. apply (sr_fresh _ _ _ _ _ H).
+Qed.
+
+Lemma Forall2_dblk_lt n0 h0 h seqs pseqs :
+  Forall2 (seq_rel n0 h0 h) seqs pseqs -> Forall (fun b => b < length h) (map dblk seqs).
+Proof.
+  induction 1; cbn [map]; constructor; auto. apply (sr_wf _ _ _ _ _ H).
+Qed.
+
+Lemma Forall2_frame n0 h0 h h' seqs pseqs :
+  length h <= length h' ->
+  (forall b, In b (map dblk seqs) -> hblock h' b = hblock h b) ->
+  Forall2 (seq_rel n0 h0 h) seqs pseqs -> Forall2 (seq_rel n0 h0 h') seqs pseqs.
+Proof.
+  intros L E F. induction F; constructor.
+  - eapply seq_rel_frame; try eassumption. apply E. left. reflexivity.
+  - apply IHF. intros b Hb. apply E. right. assumption.
+Qed.
+
+(* the state after one iteration, related to the pure iteration *)
+Definition step_rel (n0 : nat) (h0 : heap) (st' : mstate) (o : outcome (list mseq))
+           (po : outcome (list pseq)) : Prop :=
+  match o, po with
+  | Ok seqs', Ok pseqs' =>
+    Forall2 (seq_rel n0 h0 (st_heap st')) seqs' pseqs' /\ NoDup (map dblk seqs')
+  | Err, Err => True
+  | Fault, Fault => True
+  | _, _ => False
+  end.
+
+Lemma parse_sparse_step_refines g h0 st v seqs pseqs :
+  firstn (length h0) (st_heap st) = h0 ->
+  view_ok h0 v ->
+  Forall2 (seq_rel (length h0) h0 (st_heap st)) seqs pseqs -> NoDup (map dblk seqs) ->
+  step_rel (length h0) h0 (fst (parse_sparse_step g true v seqs st))
+           (snd (parse_sparse_step g true v seqs st)) (pure_step (mread_bytes h0 v) pseqs).
+Proof.
+  intros EH [(VB & VL & VC) V512] F ND.
+  assert (LN : length h0 <= length (st_heap st)).
+  { rewrite <- EH at 1. rewrite firstn_length. lia. }
+  set (n0 := length h0) in *.
+  assert (EH' : firstn n0 (st_heap st) = firstn n0 h0) by (rewrite EH; symmetry; apply firstn_all).
+  assert (SH : mread_bytes (st_heap st) v = mread_bytes h0 v).
+  { apply mread_same_block. eapply hblock_firstn; eassumption. }
+  assert (LSH : length (mread_bytes h0 v) = 512).
+  { rewrite <- V512. apply length_mread. repeat split; assumption. }
+  unfold parse_sparse_step, mbind, mread. cbn [fst snd]. rewrite SH.
+  set (sh := mread_bytes h0 v) in *. unfold pure_step.
+  destruct (negb (sh_version_supported sh)); [cbn; exact I|].
+  destruct (sh_is_padding sh).
+  { cbn. split; assumption. }
+  pose proof (raw_data_start_le sh) as RS.
+  unfold raw_data_view, mlift.
+  rewrite (mslice2_ok v (raw_data_start sh) (sl_len v)) by lia.
+  set (raw := mk_slice (sl_blk v) (sl_off v + raw_data_start sh) (sl_len v - raw_data_start sh)
+                       (sl_cap v - raw_data_start sh)).
+  assert (RAW : mread_bytes (st_heap st) raw = sh_raw_data sh).
+  { unfold sh_raw_data.
+    transitivity (skipn (raw_data_start sh) (mread_bytes (st_heap st) v)); [|rewrite SH; reflexivity].
+    apply mread_mslice2_from. apply mslice2_ok; lia. }
+  assert (RAWNE : mread_bytes (st_heap (log_read v st)) raw <> []).
+  { cbn [log_read log_acc st_heap]. rewrite RAW. unfold sh_raw_data. intros K.
+    apply (f_equal (@length byte)) in K. rewrite skipn_length in K. cbn [length] in K. lia. }
+  destruct (sh_start sh) eqn:START.
+  - (* sequence start: copy into a fresh buffer *)
+    rewrite (mslice2_ok v 0 29) by lia.
+    unfold signer_view. rewrite START.
+    assert (SG : exists sg, (if (N.eqb (sh_version sh) 1) && true
+                    then do s <- mslice2 v 34 54; Ok (Some s) else Ok None) = Ok sg /\
+                 match sg, sh_signer sh with
+                 | Some s, Some b => sl_blk s < n0 /\ mread_bytes h0 s = b
+                 | None, None => True
+                 | _, _ => False
+                 end).
+    { unfold sh_signer. rewrite START. destruct (N.eqb (sh_version sh) 1); cbn [andb].
+      - rewrite (mslice2_ok v 34 54) by lia. cbn [bind]. eexists. split; [reflexivity|].
+        split; [exact VB|]. fold sh.
+        rewrite (mread_mslice2 h0 v 34 54 _ (mslice2_ok v 34 54 ltac:(lia) ltac:(lia))) by lia.
+        reflexivity.
+      - eexists. split; [reflexivity|]. exact I. }
+    destruct SG as (sg & -> & SGR).
+    unfold mcopy_fresh.
+    destruct (mappend_spec g nil_slice raw (log_read v st)) as (st2 & d & EQ & L2 & FR & RD & WF & BLK).
+    { left. split; reflexivity. }
+    { exact RAWNE. }
+    rewrite EQ. cbn [fst snd mret]. cbn [log_read log_acc st_heap] in *.
+    destruct BLK as [BLK|[_ BLK]]; [|cbn in BLK; lia].
+    pose proof (Forall2_dblk_lt _ _ _ _ _ F) as LT.
+    split.
+    + constructor.
+      * constructor; cbn [m_ns m_ver m_data m_len m_signer q_ns q_ver q_data q_len q_signer]; auto.
+        -- fold sh.
+           rewrite (mread_mslice2 h0 v 0 29 _ (mslice2_ok v 0 29 ltac:(lia) ltac:(lia))) by lia.
+           rewrite skipn_O. reflexivity.
+        -- rewrite BLK. exact LN.
+        -- rewrite RD, RAW. reflexivity.
+      * eapply Forall2_frame; [exact L2| |exact F].
+        intros b Hb. apply FR.
+        -- rewrite Forall_forall in LT. apply LT. assumption.
+        -- rewrite Forall_forall in LT. specialize (LT b Hb). lia.
+    + cbn [map]. constructor; [|assumption]. unfold dblk at 1. cbn [m_data].
+      rewrite Forall_forall in LT. intros K. specialize (LT _ K). lia.
+  - (* continuation: append to the newest sequence *)
+    destruct F as [|q p older polder QP F]; [cbn; exact I|].
+    destruct (mappend_spec g (m_data q) raw (log_read v st)) as (st2 & d & EQ & L2 & FR & RD & WF & BLK).
+    { right. exact (sr_wf _ _ _ _ _ QP). }
+    { exact RAWNE. }
+    rewrite EQ. cbn [fst snd mret]. cbn [log_read log_acc st_heap] in *.
+    pose proof (Forall2_dblk_lt _ _ _ _ _ F) as LT. rewrite Forall_forall in LT.
+    cbn [map] in ND. apply NoDup_cons_iff in ND. destruct ND as [NI ND'].
+    assert (DNEW : forall b, In b (map dblk older) -> b <> sl_blk d).
+    { intros b Hb. destruct BLK as [BLK|[BLK _]].
+      - specialize (LT b Hb). lia.
+      - intros K. apply NI. unfold dblk at 1. rewrite <- BLK, <- K. assumption. }
+    split.
+    + constructor.
+      * destruct QP as [A B C D E' G H I0].
+        constructor; cbn [m_ns m_ver m_data m_len m_signer q_ns q_ver q_data q_len q_signer]; auto.
+        -- destruct BLK as [BLK|[BLK _]]; rewrite BLK; [exact LN|assumption].
+        -- rewrite RD, RAW, I0. reflexivity.
+      * eapply Forall2_frame; [exact L2| |exact F].
+        intros b Hb. apply FR; [apply LT; assumption|apply DNEW; assumption].
+    + cbn [map]. constructor; [|assumption]. unfold dblk at 1. cbn [m_data].
+      intros K. apply (DNEW _ K). reflexivity.
+Qed.
+
+Lemma parse_sparse_loop_refines g h0 : forall views st seqs pseqs,
+  firstn (length h0) (st_heap st) = h0 ->
+  Forall (view_ok h0) views ->
+  Forall2 (seq_rel (length h0) h0 (st_heap st)) seqs pseqs -> NoDup (map dblk seqs) ->
+  firstn (length h0) (st_heap (fst (parse_sparse_loop_mem g true views seqs st))) = h0 /\
+  step_rel (length h0) h0 (fst (parse_sparse_loop_mem g true views seqs st))
+           (snd (parse_sparse_loop_mem g true views seqs st))
+           (parse_sparse_loop (map (mread_bytes h0) views) pseqs).
+Proof.
+  induction views as [|v tl IH]; intros st seqs pseqs EH FV F ND.
+  - cbn. repeat split; assumption.
+  - cbn [parse_sparse_loop_mem map]. rewrite parse_sparse_loop_cons. unfold mbind.
+    inversion FV as [|v' tl' VOK FV']; subst.
+    pose proof (parse_sparse_step_refines g h0 st v seqs pseqs EH VOK F ND) as SR.
+    assert (LN : length h0 <= length (st_heap st)).
+    { rewrite <- EH at 1. rewrite firstn_length. lia. }
+    pose proof (ro_parse_sparse_step (length h0) g v seqs (seqs_rel_safe _ _ _ _ _ F) st LN) as [E _].
+    destruct (parse_sparse_step g true v seqs st) as [st1 o]. cbn [fst snd] in *.
+    assert (EH1 : firstn (length h0) (st_heap st1) = h0).
+    { destruct E as [E1 _]. rewrite E1. exact EH. }
+    destruct o as [seqs'| |], (pure_step (mread_bytes h0 v) pseqs) as [pseqs'| |];
+      cbn [step_rel] in SR; try contradiction; cbn [bind fst snd].
+    + destruct SR as [F' ND']. apply IH; assumption.
+    + split; [assumption|exact I].
+    + split; [assumption|exact I].
+Qed.
+
+Lemma finish_mseq_refines h0 st q p :
+  firstn (length h0) (st_heap st) = h0 ->
+  seq_rel (length h0) h0 (st_heap st) q p ->
+  st_heap (fst (finish_mseq q st)) = st_heap st /\ snd (finish_mseq q st) = finish_pseq p.
+Proof.
+  intros EH [NB NS VER LEN SG WF FR DATA].
+  assert (EH' : firstn (length h0) (st_heap st) = firstn (length h0) h0)
+    by (rewrite EH; symmetry; apply firstn_all).
+  unfold finish_mseq, finish_pseq.
+  assert (LD : lenN (q_data p) = N.of_nat (sl_len (m_data q))).
+  { unfold lenN. rewrite <- DATA, length_mread by assumption. reflexivity. }
+  rewrite LD, <- LEN.
+  destruct (N.ltb (N.of_nat (sl_len (m_data q))) (m_len q)) eqn:LT.
+  { cbn. split; reflexivity. }
+  apply N.ltb_ge in LT.
+  assert (LE : N.to_nat (m_len q) <= sl_len (m_data q)) by lia.
+  destruct WF as (WB & WL & WC).
+  unfold mbind, mlift. rewrite (mslice2_ok (m_data q) 0 (N.to_nat (m_len q))) by lia.
+  set (d := mk_slice _ _ _ _).
+  unfold slice_to. rewrite LD. rewrite (proj2 (N.leb_le _ _) LT). cbn [bind].
+  assert (RNS : mread_bytes (st_heap st) (m_ns q) = q_ns p).
+  { rewrite <- NS. apply mread_same_block. eapply hblock_firstn; eassumption. }
+  assert (RD : mread_bytes (st_heap st) d = takeN (m_len q) (q_data p)).
+  { rewrite (mread_mslice2 (st_heap st) (m_data q) 0 (N.to_nat (m_len q)) d) by (try apply mslice2_ok; lia).
+    rewrite skipn_O, Nat.sub_0_r, DATA. reflexivity. }
+  clearbody d.
+  destruct (m_signer q) as [s|], (q_signer p) as [b|]; try contradiction; cbn [mread_opt].
+  - destruct SG as [SB SR].
+    assert (RS : mread_bytes (st_heap st) s = b).
+    { rewrite <- SR. apply mread_same_block. eapply hblock_firstn; eassumption. }
+    unfold mbind, mread, mret. cbn [fst snd log_read log_acc st_heap].
+    rewrite RNS, RD, RS, VER. split; reflexivity.
+  - unfold mbind, mread, mret. cbn [fst snd log_read log_acc st_heap].
+    rewrite RNS, RD, VER. split; reflexivity.
+Qed.
+
+Lemma mmap_finish_refines h0 : forall seqs pseqs st,
+  firstn (length h0) (st_heap st) = h0 ->
+  Forall2 (seq_rel (length h0) h0 (st_heap st)) seqs pseqs ->
+  st_heap (fst (mmap finish_mseq seqs st)) = st_heap st /\
+  snd (mmap finish_mseq seqs st) = map_outcome finish_pseq pseqs.
+Proof.
+  induction seqs as [|q seqs IH]; intros pseqs st EH F; inversion F as [|q' p seqs' pseqs' QP F']; subst.
+  - cbn. split; reflexivity.
+  - cbn [mmap map_outcome]. unfold mbind.
+    destruct (finish_mseq_refines h0 st q p EH QP) as [H1 R1].
+    destruct (finish_mseq q st) as [st1 o1]. cbn [fst snd] in *. rewrite <- R1.
+    destruct o1 as [b| |]; cbn [bind]; try (split; [assumption|reflexivity]).
+    destruct (IH pseqs' st1) as [H2 R2].
+    { rewrite H1. assumption. }
+    { rewrite H1. assumption. }
+    destruct (mmap finish_mseq seqs st1) as [st2 o2]. cbn [fst snd] in *. rewrite <- R2.
+    destruct o2 as [bs| |]; cbn [bind mret fst snd]; (split; [congruence|reflexivity]).
+Qed.
+
+Lemma Forall2_rev_ {A B} (R : A -> B -> Prop) l l' : Forall2 R l l' -> Forall2 R (rev l) (rev l').
+Proof.
+  induction 1; cbn [rev]; [constructor|]. apply Forall2_app; auto.
+Qed.
+
+(* the result of ParseBlobs on views = the pure parser on the bytes the views denote *)
+Theorem parse_blobs_mem_refines : forall g h views,
+  Forall (view_ok h) views ->
+  snd (parse_blobs_mem g views (mk_st h [])) = parse_blobs (map (mread_bytes h) views).
+Proof.
+  intros g h views FV. unfold parse_blobs_mem, parse_blobs_gen, parse_blobs, mbind.
+  destruct (parse_sparse_loop_refines g h views (mk_st h []) [] [] (firstn_all h) FV
+              (Forall2_nil _) (NoDup_nil _)) as [EH SR].
+  destruct (parse_sparse_loop_mem g true views [] (mk_st h [])) as [st1 o]. cbn [fst snd] in *.
+  destruct o as [seqs| |], (parse_sparse_loop (map (mread_bytes h) views) []) as [pseqs| |];
+    cbn [step_rel] in SR; try contradiction; cbn [bind snd]; try reflexivity.
+  destruct SR as [F _].
+  destruct (mmap_finish_refines h (rev seqs) (rev pseqs) st1 EH (Forall2_rev_ _ _ _ F)) as [_ R].
+  exact R.
+Qed.
+
+(* heap unchanged, writes only to fresh blocks, result = pure model *)
+Theorem parse_blobs_mem_readonly : forall g h views,
+  run_read_only (parse_blobs_mem g views) h /\
+  (Forall (view_ok h) views ->
+   snd (parse_blobs_mem g views (mk_st h [])) = parse_blobs (map (mread_bytes h) views)).
+Proof.
+  intros. split; [apply parse_blobs_mem_heap_unchanged|apply parse_blobs_mem_refines].
+Qed.
+
+(* ================================================================== *)
+(* 3. The code before the repair of defect D7 modifies its input       *)
+(* ================================================================== *)
+
+(* a 1200-byte blob = 3 shares, laid out back to back in ONE 1536-byte block;
+   the three share views have the whole rest of the block as capacity *)
+Definition d7_ns : bytes := zeros 28 ++ [Byte.x07].
+Definition d7_blob : blob := mk_blob d7_ns (repeat Byte.x41 1200) 0%N None.
+Definition d7_shares : list share := match blob_to_shares d7_blob with Ok l => l | _ => [] end.
+Definition d7_arena : bytes := concat d7_shares.
+Definition d7_views : list slice :=
+  [mk_slice 0 0 512 1536; mk_slice 0 512 512 1024; mk_slice 0 1024 512 512].
+
+Lemma first_diff_refl : forall a i, first_diff i a a = None.
+Proof. induction a as [|x a IH]; intros i; cbn [first_diff]; auto. rewrite byte_eqb_refl. apply IH. Qed.
+
+Lemma d7_views_ok : Forall (view_ok [d7_arena]) d7_views.
+Proof.
+  repeat constructor; cbn [sl_blk sl_off sl_len sl_cap length];
+    try (apply Nat.leb_le; vm_compute; reflexivity).
+Qed.
+
+(* the views denote exactly the shares of the blob *)
+Lemma d7_views_denote : map (mread_bytes [d7_arena]) d7_views = d7_shares.
+Proof. vm_compute. reflexivity. Qed.
+
+Theorem parse_blobs_mem_legacy_refuted :
+  exists (h : heap) (views : list slice),
+    Forall (view_ok h) views /\
+    (* adjacent views of one block *)
+    (exists v1 v2, In v1 views /\ In v2 views /\ sl_blk v1 = sl_blk v2 /\ sl_off v2 = sl_off v1 + sl_len v1) /\
+    let st' := fst (parse_blobs_mem_legacy grow_double views (mk_st h [])) in
+    (* byte 512 of the pre-existing block (the first byte of the second share) is overwritten *)
+    first_diff 0 (hblock h 0) (hblock (st_heap st') 0) = Some 512 /\
+    firstn (length h) (st_heap st') <> h /\
+    (* and the log shows the write into block 0 *)
+    log_writes_below (length h) (st_log st') = true /\
+    (* while the repaired parser leaves it alone on the same input *)
+    firstn (length h) (st_heap (fst (parse_blobs_mem grow_double views (mk_st h [])))) = h.
+Proof.
+  exists [d7_arena], d7_views. split; [exact d7_views_ok|]. split.
+  { exists (mk_slice 0 0 512 1536), (mk_slice 0 512 512 1024).
+    repeat split; cbn; auto. }
+  cbv zeta.
+  set (h' := st_heap (fst (parse_blobs_mem_legacy grow_double d7_views (mk_st [d7_arena] [])))).
+  assert (D : first_diff 0 (hblock [d7_arena] 0) (hblock h' 0) = Some 512) by (vm_compute; reflexivity).
+  split; [exact D|]. split; [|split].
+  - intros K. rewrite (hblock_firstn 1 [d7_arena] h' 0) in D.
+    + rewrite first_diff_refl in D. discriminate D.
+    + cbn [length] in K. rewrite K. reflexivity.
+    + auto.
+  - vm_compute. reflexivity.
+  - apply parse_blobs_mem_heap_unchanged.
+Qed.
+
+(* ================================================================== *)
+(* 4. Concurrent readers                                               *)
+(* ================================================================== *)
+
+(* Threads run atomic steps over a heap whose first [n0] blocks are SHARED and
+   pre-existing.  Modelling assumption (Go: memory a goroutine allocates is
+   unreachable from other goroutines until it is published, and none of the
+   modelled functions publishes): each thread allocates in its own address
+   space, so the heap a step of thread t sees is  shared ++ private_t .  A step
+   is an ARBITRARY function on that view and on the thread's locals; whatever it
+   returns as the first n0 blocks is written back to the shared memory.  The
+   discipline - "reads anything it can see, writes only blocks it allocated" -
+   is a hypothesis on the steps ([disciplined]), not built into their type. *)
+Section Interleave.
+  Context {L : Type}.
+
+  Definition tstep : Type := mstate * L -> mstate * L.
+  Record tconf : Type := mk_tconf { tc_priv : heap; tc_log : list access; tc_loc : L }.
+
+  Definition exec_step (n0 : nat) (shared : heap) (f : tstep) (c : tconf) : heap * tconf :=
+    let r := f (mk_st (shared ++ tc_priv c) (tc_log c), tc_loc c) in
+    (firstn n0 (st_heap (fst r)),
+     mk_tconf (skipn n0 (st_heap (fst r))) (st_log (fst r)) (snd r)).
+
+  (* a thread: its remaining steps and its configuration *)
+  Definition gstate : Type := (heap * list (list tstep * tconf))%type.
+
+  (* scheduling thread i runs its next step (nothing happens if it has finished) *)
+  Definition sched_step (n0 : nat) (gs : gstate) (i : nat) : gstate :=
+    match nth_error (snd gs) i with
+    | Some (f :: rest, c) =>
+      let r := exec_step n0 (fst gs) f c in
+      (fst r, upd_nth i (fun _ => (rest, snd r)) (snd gs))
+    | _ => gs
+    end.
+
+  (* an interleaving = a schedule = the order in which the threads' steps are merged *)
+  Definition run_sched (n0 : nat) (sched : list nat) (gs : gstate) : gstate :=
+    fold_left (sched_step n0) sched gs.
+
+  (* a thread running alone on the heap [h0] (the shared part is threaded too) *)
+  Definition run_alone (n0 : nat) (h0 : heap) (steps : list tstep) (c : tconf) : heap * tconf :=
+    fold_left (fun s f => exec_step n0 (fst s) f (snd s)) steps (h0, c).
+
+  (* the discipline: a step leaves the first n0 blocks alone and logs every write
+     against a block it owns (id >= n0) *)
+  Definition disciplined (n0 : nat) (f : tstep) : Prop :=
+    forall st l, n0 <= length (st_heap st) -> ext n0 st (fst (f (st, l))).
+
+  (* global identity of the block an access of thread t touches *)
+  Inductive gblock := GShared (b : nat) | GPrivate (t b : nat).
+  Definition gblock_of (n0 t : nat) (a : access) : gblock :=
+    if Nat.ltb (a_blk a) n0 then GShared (a_blk a) else GPrivate t (a_blk a).
+
+  (* two accesses of different threads to the same block, at least one a write *)
+  Definition conflict (n0 t1 : nat) (a1 : access) (t2 : nat) (a2 : access) : Prop :=
+    t1 <> t2 /\ gblock_of n0 t1 a1 = gblock_of n0 t2 a2 /\ (a_kind a1 = AW \/ a_kind a2 = AW).
+
+  Lemma wfresh_no_conflict n0 t1 a1 t2 a2 :
+    wfresh n0 a1 -> wfresh n0 a2 -> ~ conflict n0 t1 a1 t2 a2.
+  Proof.
+    intros W1 W2 (NE & G & K). unfold gblock_of in G.
+    destruct (Nat.ltb (a_blk a1) n0) eqn:E1, (Nat.ltb (a_blk a2) n0) eqn:E2;
+      try discriminate G.
+    - apply Nat.ltb_lt in E1, E2. destruct K as [K|K]; [specialize (W1 K)|specialize (W2 K)]; lia.
+    - inversion G. contradiction.
+  Qed.
+
+  Lemma exec_step_disciplined h0 f c :
+    disciplined (length h0) f -> Forall (wfresh (length h0)) (tc_log c) ->
+    fst (exec_step (length h0) h0 f c) = h0 /\
+    Forall (wfresh (length h0)) (tc_log (snd (exec_step (length h0) h0 f c))).
+  Proof.
+    intros D W. unfold exec_step. cbn [fst snd tc_log].
+    specialize (D (mk_st (h0 ++ tc_priv c) (tc_log c)) (tc_loc c)).
+    cbn [st_heap st_log] in D. rewrite app_length in D.
+    destruct (D ltac:(lia)) as (E & _ & K). cbn [st_heap st_log] in E, K. split.
+    - rewrite E. rewrite firstn_app_le by lia. apply firstn_all.
+    - apply K. assumption.
+  Qed.
+
+  (* relation between a thread as given and the same thread at some point of a run *)
+  Definition thread_rel (h0 : heap) (th0 th : list tstep * tconf) : Prop :=
+    Forall (disciplined (length h0)) (fst th0) /\
+    Forall (wfresh (length h0)) (tc_log (snd th)) /\
+    exists done, fst th0 = done ++ fst th /\ run_alone (length h0) h0 done (snd th0) = (h0, snd th).
+
+  Lemma Forall2_len {A B} (R : A -> B -> Prop) l l' : Forall2 R l l' -> length l = length l'.
+  Proof. induction 1; cbn [length]; congruence. Qed.
+
+  Lemma Forall2_nth_error {A B} (R : A -> B -> Prop) : forall l l' i x',
+    Forall2 R l l' -> nth_error l' i = Some x' -> exists x, nth_error l i = Some x /\ R x x'.
+  Proof.
+    induction l as [|a l IH]; intros l' i x' F N; inversion F; subst.
+    - destruct i; discriminate N.
+    - destruct i as [|i]; cbn [nth_error] in *.
+      + inversion N; subst. eexists; split; [reflexivity|assumption].
+      + eapply IH; eassumption.
+  Qed.
+
+  Lemma Forall2_upd_nth {A B} (R : A -> B -> Prop) (y : B) : forall l l' i x,
+    Forall2 R l l' -> nth_error l i = Some x -> R x y -> Forall2 R l (upd_nth i (fun _ => y) l').
+  Proof.
+    induction l as [|a l IH]; intros l' i x F N Rxy; inversion F; subst.
+    - destruct i; discriminate N.
+    - destruct i as [|i]; cbn [nth_error upd_nth] in *.
+      + inversion N; subst. constructor; assumption.
+      + constructor; [assumption|]. eapply IH; eassumption.
+  Qed.
+
+  Lemma run_alone_snoc n0 h0 done f c :
+    run_alone n0 h0 (done ++ [f]) c =
+    exec_step n0 (fst (run_alone n0 h0 done c)) f (snd (run_alone n0 h0 done c)).
+  Proof. unfold run_alone. rewrite fold_left_app. reflexivity. Qed.
+
+  Lemma sched_step_invariant h0 ths0 ths i :
+    Forall2 (thread_rel h0) ths0 ths ->
+    fst (sched_step (length h0) (h0, ths) i) = h0 /\
+    Forall2 (thread_rel h0) ths0 (snd (sched_step (length h0) (h0, ths) i)).
+  Proof.
+    intros F. unfold sched_step. cbn [fst snd].
+    destruct (nth_error ths i) as [[[|f rest] c]|] eqn:N; cbn [fst snd]; auto.
+    destruct (Forall2_nth_error _ _ _ _ _ F N) as ([steps0 c0] & N0 & (D & W & done & SPLIT & RA)).
+    cbn [fst snd] in *.
+    assert (Df : disciplined (length h0) f).
+    { rewrite Forall_forall in D. apply D. rewrite SPLIT. apply in_or_app. right. left. reflexivity. }
+    destruct (exec_step_disciplined h0 f c Df W) as [SH WL].
+    split; [assumption|].
+    eapply Forall2_upd_nth; [exact F|exact N0|].
+    split; [exact D|]. split; [exact WL|]. cbn [fst snd].
+    exists (done ++ [f]). split.
+    - rewrite SPLIT, <- app_assoc. reflexivity.
+    - rewrite run_alone_snoc, RA. cbn [fst snd].
+      destruct (exec_step (length h0) h0 f c) as [sh c']. cbn [fst snd] in SH |- *.
+      rewrite SH. reflexivity.
+  Qed.
+
+  Lemma run_sched_invariant h0 ths0 : forall sched ths,
+    Forall2 (thread_rel h0) ths0 ths ->
+    fst (run_sched (length h0) sched (h0, ths)) = h0 /\
+    Forall2 (thread_rel h0) ths0 (snd (run_sched (length h0) sched (h0, ths))).
+  Proof.
+    induction sched as [|i sched IH]; intros ths F; cbn [run_sched fold_left].
+    - split; [reflexivity|assumption].
+    - destruct (sched_step_invariant h0 ths0 ths i F) as [SH F'].
+      destruct (sched_step (length h0) (h0, ths) i) as [sh ths']. cbn [fst snd] in *. subst sh.
+      apply IH. assumption.
+  Qed.
+
+  Lemma thread_rel_init h0 ths :
+    Forall (fun th => Forall (disciplined (length h0)) (fst th) /\
+                      Forall (wfresh (length h0)) (tc_log (snd th))) ths ->
+    Forall2 (thread_rel h0) ths ths.
+  Proof.
+    induction 1 as [|th ths [D W] _ IH]; constructor; auto.
+    split; [exact D|]. split; [exact W|]. exists []. split; [reflexivity|].
+    destruct th as [steps c]. reflexivity.
+  Qed.
+
+  (* For ANY schedule: the shared blocks are unchanged; every thread is where it
+     would be had it run the same steps alone (so once it has finished, its
+     result - locals, private blocks, log - is its solo result); and no two
+     accesses of different threads conflict. *)
+  Theorem read_only_interleave : forall (h0 : heap) (ths : list (list tstep * tconf)) (sched : list nat),
+    Forall (fun th => Forall (disciplined (length h0)) (fst th) /\
+                      Forall (wfresh (length h0)) (tc_log (snd th))) ths ->
+    let final := run_sched (length h0) sched (h0, ths) in
+    fst final = h0 /\
+    length (snd final) = length ths /\
+    (forall i rest c, nth_error (snd final) i = Some (rest, c) ->
+       exists steps c0 done, nth_error ths i = Some (steps, c0) /\ steps = done ++ rest /\
+         run_alone (length h0) h0 done c0 = (h0, c)) /\
+    (forall i j ri ci rj cj a b,
+       nth_error (snd final) i = Some (ri, ci) -> nth_error (snd final) j = Some (rj, cj) ->
+       In a (tc_log ci) -> In b (tc_log cj) -> ~ conflict (length h0) i a j b).
+  Proof.
+    intros h0 ths sched H final.
+    destruct (run_sched_invariant h0 ths sched ths (thread_rel_init h0 ths H)) as [SH F].
+    fold final in SH, F. split; [exact SH|]. split; [|split].
+    - symmetry. eapply Forall2_len. exact F.
+    - intros i rest c N.
+      destruct (Forall2_nth_error _ _ _ _ _ F N) as ([steps c0] & N0 & (_ & _ & done & SPLIT & RA)).
+      exists steps, c0, done. cbn [fst snd] in *. auto.
+    - intros i j ri ci rj cj a b Ni Nj Ia Ib.
+      destruct (Forall2_nth_error _ _ _ _ _ F Ni) as (_ & _ & (_ & Wi & _)).
+      destruct (Forall2_nth_error _ _ _ _ _ F Nj) as (_ & _ & (_ & Wj & _)).
+      cbn [snd] in Wi, Wj. rewrite Forall_forall in Wi, Wj.
+      apply wfresh_no_conflict; auto.
+  Qed.
+
+  (* complete schedules: a thread that has no step left has its solo result *)
+  Corollary read_only_interleave_complete : forall h0 ths sched i steps c0 c,
+    Forall (fun th => Forall (disciplined (length h0)) (fst th) /\
+                      Forall (wfresh (length h0)) (tc_log (snd th))) ths ->
+    nth_error ths i = Some (steps, c0) ->
+    nth_error (snd (run_sched (length h0) sched (h0, ths))) i = Some ([], c) ->
+    run_alone (length h0) h0 steps c0 = (h0, c).
+  Proof.
+    intros h0 ths sched i steps c0 c H N0 N.
+    destruct (read_only_interleave h0 ths sched H) as (_ & _ & R & _).
+    destruct (R i [] c N) as (steps' & c0' & done & N0' & SPLIT & RA).
+    rewrite N0 in N0'. inversion N0'; subst. rewrite app_nil_r. exact RA.
+  Qed.
+End Interleave.
